@@ -395,7 +395,7 @@ GENERIC = {
     "C03": dict(q=dict(cover_n=1200, soup_n=3000, mb_n=2500, trunc_n=200, extra=dict(sep_family=1500, multiline_family=2500, err_family=800)), t=dict(cover_n=40000, soup_n=40000, mb_n=30000, trunc_n=2000, extra=dict(sep_family=20000, multiline_family=30000, err_family=10000)), events=True),
     "C04": dict(q=dict(cover_n=1200, soup_n=3000, lf_n=1200, mb_n=300, extra=dict(sep_family=1500, multiline_family=2500, err_family=800)), t=dict(cover_n=40000, soup_n=40000, lf_n=15000, mb_n=3000, extra=dict(sep_family=20000, multiline_family=30000, err_family=10000)), events=True),
     "C05": dict(q=dict(cover_n=1200, soup_n=3000, lf_n=1200, mb_n=300, extra=dict(sep_family=1500, multiline_family=2500, err_family=800)), t=dict(cover_n=40000, soup_n=40000, lf_n=15000, mb_n=3000, extra=dict(sep_family=20000, multiline_family=30000, err_family=10000)), events=False),
-    "C06": dict(q=dict(cover_n=1200, soup_n=5000, trunc_n=400, mb_n=500, case_n=300), t=dict(cover_n=40000, soup_n=60000, trunc_n=5000, mb_n=5000, case_n=3000), events=False),
+    "C06": dict(q=dict(cover_n=1200, soup_n=5000, trunc_n=400, mb_n=500, case_n=300, extra=dict(kw_near_family=5000)), t=dict(cover_n=40000, soup_n=60000, trunc_n=5000, mb_n=5000, case_n=3000, extra=dict(kw_near_family=10000)), events=False),
     "C07": dict(q=dict(cover_n=1200, soup_n=3000, trunc_n=300, mb_n=300, extra=dict(string_family=5000)), t=dict(cover_n=40000, soup_n=30000, trunc_n=3000, mb_n=3000, extra=dict(string_family=80000)), events="all"),
     "C08": dict(q=dict(soup_n=2000, extra=dict(num_family=6000)), t=dict(soup_n=20000, extra=dict(num_family=150000)), events=False),
     "C11": dict(q=dict(soup_n=2000, extra=dict(oc_family=12000)), t=dict(soup_n=20000, extra=dict(oc_family=150000)), events=False),
